@@ -38,7 +38,7 @@ B = z3.BoolSort()
 I = z3.IntSort()
 R = z3.RealSort()
 
-Z3_TIMEOUT_MS = int(os.environ.get("PYVC_TIMEOUT_MS", "20000"))
+Z3_TIMEOUT_MS = int(os.environ.get("PYVC_TIMEOUT_MS", "30000"))
 
 
 class Unsupported(Exception):
@@ -990,6 +990,21 @@ class Executor:
                     o.val = fresh("dval", z3.ArraySort(o.ksort, set_sort(c.esort)))
                 o.val = z3.Store(o.val, kz, c.mem)
             return
+        if isinstance(o, Coll) and o.kind == "list" and isinstance(k, Scalar) and k.z.sort() == I and o.mem is not None:
+            # L[i] = v on an abstract list: same length, position i replaced (IndexError-free obligation; negative indices not modelled)
+            at, _ = self.seq_of(o, st)
+            n = o.len_z
+            self.oblige(st, z3.And(0 <= k.z, k.z < n), "indexerror-free")
+            vz = z3_of(v)
+            kk = next(_fresh)
+            at2 = z3.Function(f"at!{kk}", I, o.esort)
+            idx2 = z3.Function(f"idx!{kk}", o.esort, I)
+            i_, y = fresh("i", I), fresh("y", o.esort)
+            st.assume(z3.ForAll([i_], at2(i_) == z3.If(i_ == k.z, vz, at(i_))))
+            o.mem = z3.Lambda([y], z3.Exists([i_], z3.And(0 <= i_, i_ < n, at2(i_) == y)))
+            st.assume(z3.ForAll([y], z3.Implies(o.mem[y], z3.And(0 <= idx2(y), idx2(y) < n, at2(idx2(y)) == y))))
+            o.items, o.nodup, o.nodup_z, o.seq = None, False, None, (at2, idx2)
+            return
         raise Unsupported(f"item store on {o!r}")
 
     def st_If(self, node, st):
@@ -1550,8 +1565,9 @@ class Executor:
             it = Coll("tuple", None, None, items=list(itv.items))  # concrete python sequence: unrolled below
         else:
             it = self.as_coll(itv, st)
-        if node.orelse:
-            raise Unsupported("for/else")
+        if node.orelse and not (it.items is not None and len(it.items) <= 4) and self.contract is not None \
+                and self.contract.invariants.get(self.loop_ids.get(id(node))) is None:
+            raise Unsupported("for/else on a loop without invariant")
         if it.items is not None and len(it.items) <= 4:
             # concrete short sequence: unroll
             states = [st]
@@ -1568,8 +1584,14 @@ class Executor:
                         else:
                             out.append((s2, o))
                 states = nxt
+            if node.orelse:   # for/else: the else block runs on the paths that did not break
+                for s in states:
+                    out += self.exec_block(node.orelse, s)
+                return out
             return out + [(s, NORMAL) for s in states]
-        if self.foreach_summary(node, it, st):
+        if node.orelse and self.dry:
+            raise Unsupported("for/else in a type-inference run")
+        if not node.orelse and self.foreach_summary(node, it, st):
             return [(st, NORMAL)]
         k = self.next_loop_id(node)
         if self.dry:
@@ -1614,7 +1636,10 @@ class Executor:
                     out.append((s2, o))
         self.loop_counter = max(self.loop_counter, saved_counter)
         st.assume(seteq(done, it.mem, it.esort), f"loop{k}:exit")
-        out.append((st, NORMAL))
+        if node.orelse:
+            out += self.exec_block(node.orelse, st)   # for/else: reached only when the loop was not left by `break`
+        else:
+            out.append((st, NORMAL))
         return out
 
     # ------------------------------------------------------------------ expressions
@@ -1623,6 +1648,12 @@ class Executor:
         if m is None:
             raise Unsupported(f"expression {type(node).__name__} at line {getattr(node, 'lineno', '?')}")
         return m(node, st)
+
+    def ex_JoinedStr(self, node, st):
+        for v in node.values:
+            if isinstance(v, ast.FormattedValue):
+                self.ev(v.value, st)    # evaluated for its obligations; the text itself is not modelled
+        return Scalar(fresh("fstring", Atom), "str")
 
     def ex_Constant(self, node, st):
         v = node.value
@@ -2724,12 +2755,26 @@ class Executor:
             if c.mem is None:
                 c.esort, c.mem = z.sort(), empty_set(z.sort())
             was_empty = c.items == []
+            len_before = c.len_z
             if name == "append" and not was_empty:
                 prev = c.nodup_z if c.nodup_z is not None else z3.BoolVal(bool(c.nodup))
                 c.nodup_z = z3.And(prev, z3.Not(c.mem[z]))
                 c.nodup = False
                 c.len_z = None
+            keep_seq = None
+            if name == "append" and c.seq is not None and c.kind == "list" and not was_empty:
+                # a list that already has a sequence view keeps it: the new element sits at position len
+                keep_seq = (c.seq[0], len_before)
             c.seq = None
+            if keep_seq is not None and keep_seq[1] is not None:
+                at0, n0 = keep_seq
+                kk = next(_fresh)
+                at2 = z3.Function(f"at!{kk}", I, z.sort())
+                idx2 = z3.Function(f"idx!{kk}", z.sort(), I)
+                i_, y_ = fresh("i", I), fresh("y", z.sort())
+                st.assume(z3.ForAll([i_], at2(i_) == z3.If(i_ == n0, z, at0(i_))))
+                st.assume(z3.ForAll([y_], z3.Implies(z3.Or(c.mem[y_], y_ == z), z3.And(0 <= idx2(y_), idx2(y_) < n0 + 1, at2(idx2(y_)) == y_))))
+                c.seq, c.len_z = (at2, idx2), n0 + 1
             if not deq(z, z).eq(z == z):
                 y = fresh("y", z.sort())
                 old_mem = c.mem
